@@ -11,7 +11,7 @@ RULE = ('random operation sequences (1-40 ops) over 1-4 handles placed at depth 
         'ResourceMap, loaded values drawn from None/0/0.0/""/[]/{}/objects with '
         '__bool__ False, __eq__ always True, __eq__ always False / a World; each access '
         'goes through one of 6 paths (h(), m[path], static attribute, static item, '
-        'm.get, static get) or is a SimpleLoop.switch with random clear_current/clear_next; distinct = different (case, trace); '
+        'm.get, static get; [] starts from a random enclosing map, static accesses use a random one of the snapshots built so far, new snapshots are built at random points) or is a SimpleLoop.switch with random clear_current/clear_next; distinct = different (case, trace); '
         'non-trivial = at least one clear and two loading accesses of the same handle')
 TRUSTED = [
     'Coq 8.16.1 kernel + vm_compute (evaluation of C12_verdict on the observed traces)',
@@ -40,14 +40,17 @@ def gen(rng, tier):
         for _ in range(rng.randint(1, 40)):
             h = rng.randrange(nh)
             r = rng.random()
-            if r < 0.2:
+            if r < 0.06:
+                ops.append(['resnap', 0])          # build another static snapshot now
+            elif r < 0.2:
                 ops.append(['clear', h])
             elif r < 0.35:
                 ops.append(['cached', h])
             elif r < 0.5 and kinds[h] == 'world':
                 ops.append(['switch', h, rng.random() < 0.5, rng.random() < 0.4])
             else:
-                ops.append(['access', h, rng.choice(PATHS)])
+                # sel: which enclosing map / which snapshot the access starts from
+                ops.append(['access', h, rng.choice(PATHS), rng.randrange(1000)])
         cases.append(dict(kinds=kinds, depth=depth, ops=ops))
     return cases
 
@@ -97,10 +100,16 @@ def run(case):
         root[key] = h
         hs.append(h)
         keys.append(key)
-    static = root.get_static_map()
+    statics = [root.get_static_map()]
     loop = desper.SimpleLoop()
     out = []
     for o in case['ops']:
+        if o[0] == 'resnap':
+            statics.append(root.get_static_map())
+            out.append(None)
+            continue
+        sel = o[3] if len(o) > 3 else 0
+        static = statics[sel % len(statics)]
         h = hs[o[1]]
         key = keys[o[1]]
         parts = key.split('/')
@@ -120,7 +129,12 @@ def run(case):
                 if p == 'PCall':
                     res = h()
                 elif p == 'PItem':
-                    res = root[key]
+                    # [] on ANY enclosing map: start from a sub-map on the way
+                    k = sel % len(parts)
+                    start = root
+                    for part in parts[:k]:
+                        start = start.get(part)
+                    res = start['/'.join(parts[k:])]
                 elif p == 'PSAttr':
                     cur = static
                     for part in parts:
@@ -153,6 +167,8 @@ def encode(case, trace):
         return lst(['(OClear 0, {| o_loads := -1; o_flag := false |})'])
     items = []
     for o, ob in zip(case['ops'], trace['obs']):
+        if o[0] == 'resnap':
+            continue
         if o[0] == 'clear':
             op = '(OClear %s)' % z(o[1])
         elif o[0] == 'cached':
